@@ -326,6 +326,12 @@ YR_API void yr_compiler_destroy(YR_COMPILER* compiler)
   for (int i = 0; i < compiler->file_name_stack_ptr; i++)
     yr_free(compiler->file_name_stack[i]);
 
+  // The identifiers of the loop variables are still owned by the compiler if
+  // the parser was aborted (YYABORT) while inside a loop.
+  for (int i = 0; i <= compiler->loop_index; i++)
+    for (int j = 0; j < compiler->loop[i].vars_count; j++)
+      yr_free((void*) compiler->loop[i].vars[j].identifier.ptr);
+
   YR_FIXUP* fixup = compiler->fixup_stack_head;
 
   while (fixup != NULL)
